@@ -109,13 +109,6 @@ def _handle_union_types(
     memo: TypeCheckMemo,
 ) -> bool | None:
     """Handle compatibility logic for Union types with directional consideration."""
-    if (isinstance(incoming_type, UnionType) or get_origin(incoming_type) is Union) and (
-        isinstance(required_type, UnionType) or get_origin(required_type) is Union
-    ):
-        incoming_type_args = get_args(incoming_type)
-        required_type_args = get_args(required_type)
-        return _all_types_compatible(incoming_type_args, required_type_args, memo)
-
     if isinstance(incoming_type, UnionType) or get_origin(incoming_type) is Union:
         return all(is_type_compatible(t, required_type, memo) for t in get_args(incoming_type))
 
@@ -236,6 +229,14 @@ def is_type_compatible(
         return True
     if (result := _is_typevar_compatible(incoming_type, required_type, memo)) is not None:
         return result
+    # `Annotated[T, metadata]` without array metadata is just `T`; strip it before the
+    # union logic so that e.g. `Annotated[Optional[str], m]` is treated as `Optional[str]`.
+    for tp, is_incoming in ((incoming_type, True), (required_type, False)):
+        if get_origin(tp) is Annotated and _extract_array_element_type(get_args(tp)[1:]) is None:
+            primary = get_args(tp)[0]
+            if is_incoming:
+                return is_type_compatible(primary, required_type, memo)
+            return is_type_compatible(incoming_type, primary, memo)
     if (result := _handle_union_types(incoming_type, required_type, memo)) is not None:
         return result
     if (result := _handle_generic_types(incoming_type, required_type, memo)) is not None:
